@@ -95,6 +95,7 @@ mod d {
     pub fn rep_unpacked_w<const W: u8>() { pb::pb_rep_int32_w::<W, false>() }
     pub fn rep_packed_w<const W: u8>() { pb::pb_rep_int32_w::<W, true>() }
     pub fn map_w<const W: u8>() { pb::pb_btree_map_w::<W>() }
+    pub fn map_w_long<const W: u8>() { pb::pb_btree_map_w_long::<W>() }
 }
 inst2!(q, dec_message_w, 12, d::msg_w);
 inst2!(q, dec_group_w, 12, d::group_w);
@@ -103,6 +104,7 @@ inst2!(t, dec_lendelim_w, 12, d::lendelim_w);
 inst2!(q, dec_rep_int32_unpacked_w, 12, d::rep_unpacked_w);
 inst2!(q, dec_rep_int32_packed_w, 12, d::rep_packed_w);
 inst2!(q, dec_btree_map_w, 12, d::map_w);
+inst2!(q, dec_btree_map_w_long, 12, d::map_w_long);
 macro_rules! rinst {
     ($tier:ident, $name:ident, $unw:expr, $($call:tt)*) => { paste! {
         pproof!{ #[kani::unwind($unw)] fn [<c05_ $tier _ $name>]() { $($call)*() } }
